@@ -1,7 +1,7 @@
 (* Property C05 (b), lock discipline: proofs.
    (1) the checker of Model/LockProg.v is sound for EVERY execution of a lock program
        (fn_ok_sound);
-   (2) the generated table (Gen/GenLockSites.v) passes it: every function of the package
+   (2) the generated table (Gen/GenLockProgs.v) passes it: every function of the package
        that touches a lock is balanced, never blocks under a plain mutex and nests locks
        strictly downwards; the lock acquisitions of the call path are of plain mutexes of
        that table;
@@ -11,7 +11,7 @@
        holders' critical sections; a thread that returns with the lock held blocks a waiter
        for ever. *)
 From Coq Require Import ZArith List Bool Lia.
-From Verif Require Import Spec.WaitSpec Spec.LockSpec Model.LockProg Gen.GenLockSites.
+From Verif Require Import Spec.WaitSpec Spec.LockProgSpec Model.LockProg Gen.GenLockProgs.
 Import ListNotations.
 Local Open Scope Z_scope.
 
@@ -263,10 +263,10 @@ Qed.
 (* ================================================================== *)
 (* (2) the generated table                                             *)
 (* ================================================================== *)
-Theorem lock_progs_disciplined : Forall (lock_disciplined (sem_of lock_mutexes)) lock_progs.
+Theorem lock_progs_disciplined : Forall (lock_disciplined (sem_of lockp_mutexes)) lockp_progs.
 Proof.
   apply Forall_forall. intros f Hf. apply fn_ok_sound.
-  assert (H : forallb (fn_ok (sem_of lock_mutexes)) lock_progs = true) by (vm_compute; reflexivity).
+  assert (H : forallb (fn_ok (sem_of lockp_mutexes)) lockp_progs = true) by (vm_compute; reflexivity).
   rewrite forallb_forall in H. exact (H f Hf).
 Qed.
 
@@ -277,21 +277,21 @@ Proof.
   destruct (lm_sem x); [discriminate H2|reflexivity].
 Qed.
 
-Theorem lock_sites_plain : Forall (fun l => plain_mutex lock_mutexes (ls_mutex l)) (lock_sites ++ lock_sites_conn).
+Theorem lock_sites_plain : Forall (fun l => plain_mutex lockp_mutexes (ls_mutex l)) (lockp_sites ++ lockp_sites_conn).
 Proof.
   apply Forall_forall. intros l Hl. apply site_plainb_spec.
-  assert (H : forallb (site_plainb lock_mutexes) (lock_sites ++ lock_sites_conn) = true) by (vm_compute; reflexivity).
+  assert (H : forallb (site_plainb lockp_mutexes) (lockp_sites ++ lockp_sites_conn) = true) by (vm_compute; reflexivity).
   rewrite forallb_forall in H. exact (H l Hl).
 Qed.
 
 (* every function in which a lock site of the call path lies has its program in the table *)
 Definition name_eqb (a b : list Z) : bool := if list_eq_dec Z.eq_dec a b then true else false.
-Definition site_in_progs (l : lsite) : bool := existsb (fun f => name_eqb (lf_name f) (ls_fn l)) lock_progs.
+Definition site_in_progs (l : lsite) : bool := existsb (fun f => name_eqb (lf_name f) (ls_fn l)) lockp_progs.
 
-Theorem lock_sites_covered : Forall (fun l => exists f, In f lock_progs /\ lf_name f = ls_fn l) (lock_sites ++ lock_sites_conn).
+Theorem lock_sites_covered : Forall (fun l => exists f, In f lockp_progs /\ lf_name f = ls_fn l) (lockp_sites ++ lockp_sites_conn).
 Proof.
   apply Forall_forall. intros l Hl.
-  assert (H : forallb site_in_progs (lock_sites ++ lock_sites_conn) = true) by (vm_compute; reflexivity).
+  assert (H : forallb site_in_progs (lockp_sites ++ lockp_sites_conn) = true) by (vm_compute; reflexivity).
   rewrite forallb_forall in H. specialize (H l Hl). unfold site_in_progs in H. apply existsb_exists in H.
   destruct H as [f [Hf E]]. exists f. split; [exact Hf|]. unfold name_eqb in E.
   destruct (list_eq_dec Z.eq_dec (lf_name f) (ls_fn l)) as [e|]; [exact e|discriminate E].
@@ -574,9 +574,9 @@ Definition bsite_bounded (ms : list lmutex) (progs : list lfunc) (b : bsite) : P
                Forall (lock_disciplined (sem_of ms)) progs
   end.
 
-Definition call_path_sites : list bsite := map BWait wait_sites ++ map BLock (lock_sites ++ lock_sites_conn).
+Definition call_path_sites : list bsite := map BWait wait_sites ++ map BLock (lockp_sites ++ lockp_sites_conn).
 
-Theorem all_blocking_sites_bounded : Forall (bsite_bounded lock_mutexes lock_progs) call_path_sites.
+Theorem all_blocking_sites_bounded : Forall (bsite_bounded lockp_mutexes lockp_progs) call_path_sites.
 Proof.
   unfold call_path_sites. apply Forall_app. split; apply Forall_forall; intros b Hb; apply in_map_iff in Hb; destruct Hb as [x [E Hx]]; subst b.
   - cbn [bsite_bounded]. pose proof wait_sites_ok as W. rewrite Forall_forall in W. apply W, Hx.
@@ -587,10 +587,10 @@ Proof.
 Qed.
 
 (* the tables are not empty and contain what the property text names *)
-Definition has_prog (name : list Z) : bool := existsb (fun f => name_eqb (lf_name f) name) lock_progs.
-Definition has_mutex (name : list Z) : bool := existsb (fun x => name_eqb (lm_name x) name && negb (lm_sem x)) lock_mutexes.
+Definition has_prog (name : list Z) : bool := existsb (fun f => name_eqb (lf_name f) name) lockp_progs.
+Definition has_mutex (name : list Z) : bool := existsb (fun x => name_eqb (lm_name x) name && negb (lm_sem x)) lockp_mutexes.
 Definition sites_of_mutex (name : list Z) : nat :=
-  length (filter (fun l => existsb (fun x => name_eqb (lm_name x) name && (lm_id x =? ls_mutex l)) lock_mutexes) (lock_sites ++ lock_sites_conn)).
+  length (filter (fun l => existsb (fun x => name_eqb (lm_name x) name && (lm_id x =? ls_mutex l)) lockp_mutexes) (lockp_sites ++ lockp_sites_conn)).
 
 (* ================================================================== *)
 (* (4) an execution of a disciplined lock program IS a thread of (3)   *)
@@ -748,8 +748,8 @@ End Link.
    its paths, in any interleaving, never leave a mutex waiter behind a holder that cannot finish:
    C05_lock_wait_bounded applies to them *)
 Theorem generated_programs_bound_lock_waits : forall runs : list (lfunc * ltrace * hst),
-  Forall (fun r => let '(f, tr, s) := r in In f lock_progs /\ exists c, c <> CPanic /\ xb (lf_body f) hinit c s tr) runs ->
-  forall ls st, trun (tinit (map (fun r => let '(f, tr, s) := r in thread_of_run (sem_of lock_mutexes) tr s) runs)) ls = Some st ->
+  Forall (fun r => let '(f, tr, s) := r in In f lockp_progs /\ exists c, c <> CPanic /\ xb (lf_body f) hinit c s tr) runs ->
+  forall ls st, trun (tinit (map (fun r => let '(f, tr, s) := r in thread_of_run (sem_of lockp_mutexes) tr s) runs)) ls = Some st ->
   (~ all_free st -> exists i held ops, nth i st ([], []) = (held, ops) /\ held <> [] /\ exists s1, tstep st (TStep i) = Some s1) /\
   (exists ls' s', Forall is_tstep ls' /\ length ls' = sections_left st /\ trun st ls' = Some s' /\ all_free s').
 Proof.
